@@ -110,10 +110,13 @@ def gen_case(rng):
     return comps, ncomp, links
 
 
-def build(case):
+def build(case, link_order=None, listing=None):
     comps, ncomp, links = case
     objs = [Stub(n, i, o) for n, i, o in comps]
-    composition = fm.Composition(objs[:ncomp], print_log=False, slot_memory_location=None)
+    listed = objs[:ncomp] if listing is None else [objs[k] for k in listing]
+    composition = fm.Composition(listed, print_log=False, slot_memory_location=None)
+    if link_order is not None:
+        links = {k: links[k] for k in link_order}
     for extra in objs[ncomp:]:
         extra.initialize()
     created = {}      # (out, kinds prefix) -> adapter object
@@ -204,6 +207,26 @@ def main():
         except Exception as e:  # noqa
             got = f"{type(e).__name__}: {str(e)[:80]}"
         desc = f"components={case[0][:case[1]]} unlisted={case[0][case[1]:]} links={ {f'C{c}.{i}': v for (c, i), v in case[2].items()} }"
+        # C05: the outcome (accepted / which error class) must not depend on the order in which links are created or
+        # components are listed
+        keys = list(case[2].keys())
+        for variant in range(2):
+            lo = list(reversed(keys)) if variant == 0 else rng.sample(keys, len(keys))
+            li = list(range(case[1]))
+            rng.shuffle(li)
+            c3, _o3, _e3, _c3 = build(case, link_order=lo, listing=li)
+            got3 = None
+            try:
+                c3._collect_adapters()
+                c3._validate_composition()
+            except fm.FinamConnectError as e:
+                got3 = "FinamConnectError"
+            except Exception as e:  # noqa
+                got3 = type(e).__name__
+            base_cls = None if got is None else ("FinamConnectError" if not got.startswith(("other:",)) and ":" not in got else got.split(":")[0])
+            if (got3 is None) != (got is None) or (got3 is not None and base_cls is not None and got3 != base_cls):
+                viol.append(f"outcome depends on the order of linking / listing: {got!r} in creation order, {got3!r} with links created as {lo} and components listed as {li}: {desc}")
+                break
         if exp:
             stats["rejected"] += 1
             seen_rules |= exp
